@@ -48,12 +48,17 @@ func tText(c context, s []byte) (context, int) {
 		}
 		j, e := eatTagName(s, i)
 		if j != i {
-			if j < len(s) && bytes.IndexByte(tagEndSeparators, s[j]) == -1 {
-				// An HTML tokenizer continues the tag name up to white space, '/' or '>'.
+			// An HTML tokenizer continues the tag name up to white space, '/' or '>', whatever
+			// the characters are: <john@example.com> is an (unknown) element.
+			m, ok := eatTagNameRest(s, j)
+			if !ok {
 				return context{
 					state: stateError,
 					err:   errorf(ErrBadHTML, nil, 0, "expected space, attr name, or end of tag, but got %q", s[j:]),
 				}, len(s)
+			}
+			if m != j {
+				j, e = m, element{name: asciiToLower(s[i:m])}
 			}
 			// We've found an HTML tag.
 			ret := context{state: stateTag}
@@ -306,6 +311,19 @@ func asciiToLower(s []byte) string {
 // asciiAlphaNum reports whether c is an ASCII letter or digit.
 func asciiAlphaNum(c byte) bool {
 	return asciiAlpha(c) || '0' <= c && c <= '9'
+}
+
+// eatTagNameRest returns the index at which the tag name that continues at s[j] ends for an HTML
+// tokenizer (at white space, '/', '>' or the end of s), and whether the name is free of the
+// characters '=', '"', '\'' and '<', which are refused in tag names.
+func eatTagNameRest(s []byte, j int) (int, bool) {
+	for j < len(s) && bytes.IndexByte(tagEndSeparators, s[j]) == -1 {
+		if s[j] == '=' || s[j] == '"' || s[j] == '\'' || s[j] == '<' {
+			return j, false
+		}
+		j++
+	}
+	return j, true
 }
 
 // tagNameChar reports whether c may follow the first letter of a tag name: an ASCII letter
